@@ -143,7 +143,7 @@ def summarise_dict(it, node, env):
         if r is not None:
             return r
     gen = node.generators[0]
-    if len(node.generators) != 1 or gen.ifs or gen.is_async:
+    if len(node.generators) != 1 or gen.is_async:
         raise Unsupported(f"dict comprehension shape at line {node.lineno}")
     src = it.eval(gen.iter, env)
     sv = lib.seq_view(it, src)
@@ -151,10 +151,21 @@ def summarise_dict(it, node, env):
         raise Unsupported(f"dict comprehension over a non-sequence value at line {node.lineno}")
     arr, lo, hi = sv
     es = ElemSummary(it, gen, env, arr, lo, hi)
-    kt, vt = es.eval(node.key, node.value)
+    kt, vt, *cts = es.eval(node.key, node.value, *gen.ifs)
+    if gen.ifs and es.log:
+        raise Unsupported(f"filtered dict comprehension with a partial element expression at line {node.lineno}")
     es.split(f"dict-comprehension@{it.pos(node)}")
     K = lambda idx: es.subst(kt, idx)
     Vf = lambda idx: es.subst(vt, idx)
+    if cts:            # {k: v for x in S if p(x)}: only the items with p contribute
+        st.no_fork += 1
+        try:
+            pt = z3.And([it.truthy(c) for c in cts])
+        finally:
+            st.no_fork -= 1
+        P = lambda idx: es.subst(pt, idx)
+    else:
+        P = lambda idx: z3.BoolVal(True)
     d = lib.new_dict(it, "dict")
     has = st.fresh("dc_has", V.ArrVB)
     val = st.fresh("dc_val", V.ArrVV)
@@ -171,12 +182,12 @@ def summarise_dict(it, node, env):
     st.assume(z3.And(n >= 0, n <= hi - lo))
     st.assume(QFact(lambda k: z3.Implies(z3.Select(has, k),
                                          z3.And(lo <= z3.Select(last, k), z3.Select(last, k) < hi,
-                                                K(z3.Select(last, k)) == k,
+                                                K(z3.Select(last, k)) == k, P(z3.Select(last, k)),
                                                 z3.Select(val, k) == Vf(z3.Select(last, k)),
                                                 0 <= z3.Select(pos, k), z3.Select(pos, k) < n,
                                                 z3.Select(keys, z3.Select(pos, k)) == k)),
                     sort=Val, pattern=lambda k: z3.Select(has, k), name="dc1"))
-    st.assume(QFact(lambda i: z3.Implies(z3.And(lo <= i, i < hi),
+    st.assume(QFact(lambda i: z3.Implies(z3.And(lo <= i, i < hi, P(i)),
                                          z3.And(z3.Select(has, K(i)), i <= z3.Select(last, K(i)))),
                     name="dc2"))
     st.assume(QFact(lambda i: z3.Implies(z3.And(0 <= i, i < n),
